@@ -837,9 +837,9 @@ fn slow_card_session(ctx: &Ctx, rng: &mut Rng, rep: &mut Report, k: usize, tag: 
 pub fn c13(ctx: &Ctx) -> Report {
     let mut rep = Report::new("C13");
     let mut rng = Rng::new(ctx.seed ^ 0xC13);
-    let nconf = if ctx.thorough { 18 } else { 2 };
+    let nconf = if ctx.thorough { 6 } else { 2 };
     // corrupted blocks inside multiple-block reads (any block of the transfer) and a card that stalls mid-transfer
-    for k in 0..(if ctx.thorough { 90 } else { 9 }) {
+    for k in 0..(if ctx.thorough { 45 } else { 9 }) {
         after_error_session(ctx, &mut rng, &mut rep, k, &format!("c13m/{}/{k}", ctx.seed));
     }
     for k in 0..nconf {
@@ -858,7 +858,8 @@ pub fn c13(ctx: &Ctx) -> Report {
             correspond(&mut rep, &mut rig, &Call::Read(1, 1), &res, &log, delays, &tag);
             let pre: usize = log.iter().take_while(|t| t.out.len() != 512).map(|t| t.out.len()).sum();
             let per_call: usize = log.iter().map(|t| t.out.len()).sum();
-            let step = if ctx.thorough { 1 } else { 13 };
+            // thorough: EVERY single-bit position for the first three configurations (one per card kind), every fifth after
+            let step = if ctx.thorough { if k < 3 { 1 } else { 5 } } else { 13 };
             let mut bit = 0usize;
             while bit < 4112 {
                 let base = rig.bus.borrow().miso_bytes;
@@ -878,7 +879,7 @@ pub fn c13(ctx: &Ctx) -> Report {
                 bit += step;
             }
             // bursts up to 16 bits
-            for _ in 0..(if ctx.thorough { 3000 } else { 120 }) {
+            for _ in 0..(if ctx.thorough { 1000 } else { 120 }) {
                 let len = rng.range(2, 16) as usize;
                 let off = rng.below((4112 - len + 1) as u64) as usize;
                 let pat = rng.below(1 << len) as u32 | 1 | (1 << (len - 1));
@@ -1095,7 +1096,7 @@ pub fn c13(ctx: &Ctx) -> Report {
             }
         }
     }
-    rep.rule = "fault injection between the Lean card specification and the real driver: every single-bit flip of a data block and its CRC (4112 positions; every 7th in quick) and random bursts up to 16 bits with CRC on must give CrcError; the card going silent / busy forever / returning garbage from every (sampled) byte position of identification, single and multi-block read and write, CSD read, in both CRC modes: every call returns within the traffic bound computed from the retry budgets, never panics, a failed identification is retried from CMD0 by the next call, and after the card recovers and is marked uninitialised it is usable again; data responses other than 'accepted', SPI errors at every transaction; every informative answer byte (R1/R3/R7 responses, tokens, status bytes) of identification, single- and multi-block write and CSD read replaced by a set of other values (all error branches of acquire and of the write status check); every faulty run is also replayed on the Lean driver model; distinct = fault placements".into();
+    rep.rule = "fault injection between the Lean card specification and the real driver: every single-bit flip of a data block and its CRC (4112 positions; every 13th in quick; thorough: every position for one configuration per card kind, every 5th for the others) and random bursts up to 16 bits with CRC on must give CrcError; the card going silent / busy forever / returning garbage from every (sampled) byte position of identification, single and multi-block read and write, CSD read, in both CRC modes: every call returns within the traffic bound computed from the retry budgets, never panics, a failed identification is retried from CMD0 by the next call, and after the card recovers and is marked uninitialised it is usable again; data responses other than 'accepted', SPI errors at every transaction; every informative answer byte (R1/R3/R7 responses, tokens, status bytes) of identification, single- and multi-block write and CSD read replaced by a set of other values (all error branches of acquire and of the write status check); every faulty run is also replayed on the Lean driver model; distinct = fault placements".into();
     rep.distinct_nontrivial = rep.cases;
     rep
 }
